@@ -41,7 +41,8 @@ TokT(k, t) == [k |-> k, t |-> t, n |-> ""]
 Call(name) == [k |-> "CALL", t |-> 0, n |-> name]
 Parking == {"BEGIN", "LK", "LS", "WM", "LF", "NOTIFY", "JOIN", "SPAWN", "START", "WAIT"}
 
-Draw == IF Multi THEN <<Tok("WM"), Tok("UM")>> ELSE <<>>
+(* a draw goes through the MultiState lock while the bar is a member: decided when the draw is reached, under the bar state lock *)
+Draw == <<Tok("DRAW")>>
 StopSeq(t) == <<TokT("LF", t), TokT("SETSTOP", t), TokT("UF", t), TokT("NOTIFY", t)>>
 
 CallTokens(name) ==
@@ -54,6 +55,7 @@ CallTokens(name) ==
       [] name = "disable" -> <<Tok("LK"), Tok("STOPJOIN"), Tok("CLEARSLOT"), Tok("UK")>>
       [] name = "enable"  -> <<Tok("LK"), Tok("STOPJOIN"), Tok("CLEARSLOT"), Tok("SPAWN"), Tok("UK")>>
       [] name = "mp_println" -> <<Tok("WM"), Tok("UM")>>
+      [] name = "mp_remove" -> <<Tok("LS"), Tok("RM_IFMEMBER"), Tok("US")>>      \* MultiProgress::remove: bar state, then MultiState
       [] name = "drop"    -> <<Tok("DEC")>>
 
 CallerScript(c) ==
@@ -61,7 +63,7 @@ CallerScript(c) ==
     \o [j \in 1..Len(Programs[c]) |-> Call(Programs[c][j])] \o <<Call("drop")>>
 
 G0 == [S |-> 0, K |-> 0, M |-> 0, F |-> [t \in Tickers |-> 0], stop |-> [t \in Tickers |-> FALSE], notified |-> [t \in Tickers |-> FALSE],
-       slot |-> 0, fin |-> FALSE, handles |-> Len(Programs), dead |-> FALSE, tup |-> [t \in Tickers |-> FALSE],
+       slot |-> 0, fin |-> FALSE, removed |-> FALSE, handles |-> Len(Programs), dead |-> FALSE, tup |-> [t \in Tickers |-> FALSE],
        nt |-> 0,                                     \* tickers spawned so far
        cst |-> [c \in Callers |-> CallerScript(c)],  \* caller token stacks
        tst |-> [t \in Tickers |-> <<>>],             \* ticker token stacks
@@ -94,6 +96,9 @@ Run(g, x) ==
                 [] tk.k = "RS" -> push([g EXCEPT !.none[x[2]] = (g.slot = 0)], <<>>)
                 [] tk.k = "IFNONE_TICK" -> push(g, IF g.none[x[2]] THEN <<Tok("LS")>> \o Draw \o <<Tok("US")>> ELSE <<>>)
                 [] tk.k = "DRAW_IFNONE" -> push(g, IF g.none[x[2]] THEN Draw ELSE <<>>)
+                [] tk.k = "DRAW" -> push(g, IF Multi /\ ~g.removed THEN <<Tok("WM"), Tok("UM")>> ELSE <<>>)
+                [] tk.k = "RM_IFMEMBER" -> push(g, IF Multi /\ ~g.removed THEN <<Tok("WM"), Tok("SETREMOVED"), Tok("UM")>> ELSE <<>>)
+                [] tk.k = "SETREMOVED" -> push([g EXCEPT !.removed = TRUE], <<>>)
                 [] tk.k = "SETFIN" -> push([g EXCEPT !.fin = TRUE], <<>>)
                 [] tk.k = "SETDEAD" -> push([g EXCEPT !.dead = TRUE], <<>>)
                 [] tk.k = "SETSTOP" -> push([g EXCEPT !.stop[tk.t] = TRUE], <<>>)
